@@ -30,6 +30,9 @@ const (
 	nameA = "a.ol"
 	nameB = "b.a.ol"
 	nameC = "c.a.ol" // a second sub-name: sorts after b.a.ol in the store's (reversed-name) key order
+	// another TOP-LEVEL name, of another owner, whose label ENDS with the label of a.ol: in the store's
+	// reversed-name key order it lies right behind a.ol's sub-names ("lo.a." < "lo.ab" < "lo.a~")
+	nameD = "ba.ol"
 )
 
 type opKind int
@@ -148,6 +151,7 @@ var (
 	oCreateA10 = op{Name: "create(A,a.ol,10=base)", Kind: opCreate, Actor: 0, Domain: nameA, Price: 10, Benef: 0}
 	oSubA      = op{Name: "create(A,b.a.ol,11)", Kind: opCreate, Actor: 0, Domain: nameB, Price: 11, Benef: 1, Legit: true, MinDepth: 2}
 	oSubC      = op{Name: "create(A,c.a.ol,11)", Kind: opCreate, Actor: 0, Domain: nameC, Price: 11, Benef: 0, Legit: true, MinDepth: 2}
+	oCreateD   = op{Name: "create(C,ba.ol,40)", Kind: opCreate, Actor: 2, Domain: nameD, Price: 40, Benef: 2, Legit: true, MinDepth: 1}
 	oSubB      = op{Name: "create(B,b.a.ol,11)", Kind: opCreate, Actor: 1, Domain: nameB, Price: 11, Benef: 1, Legit: true, MinDepth: 2}
 	oUpdA      = op{Name: "update(A,a.ol,benef=C)", Kind: opUpdate, Actor: 0, Domain: nameA, Benef: 2, Active: true, Legit: true, MinDepth: 2}
 	oUpdB      = op{Name: "update(B,a.ol,benef=B)", Kind: opUpdate, Actor: 1, Domain: nameA, Benef: 1, Active: true, Legit: true, MinDepth: 2}
@@ -209,6 +213,9 @@ func Events(tier string) []event {
 		// (added after a seeded change - the renewal reading options cached on the shared store object, which
 		// a mempool check of the finalisation updates early - escaped the alphabet)
 		pair(oRenewA, oGovUserFinalize),
+		// (added after a seeded change - the walk over a name's sub-names covering every name whose label ends
+		// with the parent's label - escaped the alphabet with a single top-level name)
+		single(oCreateD),
 	}
 	if tier == "thorough" {
 		ev = append(ev,
